@@ -80,8 +80,9 @@ type Ctx struct {
 // watchdog first saw that call in progress (a spinning loop), or when it has been in progress for
 // opBlockLimit of wall clock (a call blocked without using the processor). Processor time, not wall
 // time, so that a loaded machine cannot turn a slow call into an alarm: the longest call any check
-// makes on the unchanged tree needs about two seconds of processor time (evidence: hang_watchdog).
-const opHangLimit = 90 * time.Second
+// makes on the unchanged tree - Generate over a 65536-character alphabet, once per C13 run - needs about
+// 20 seconds of processor time, every other call under two (evidence: hang_watchdog).
+const opHangLimit = 240 * time.Second
 const opBlockLimit = 20 * time.Minute
 
 func processCPU() time.Duration {
